@@ -10,12 +10,16 @@ struct CellThrow: std::runtime_error {
     CellThrow(): std::runtime_error("injected") {}
 };
 
+// the update function of the harnesses: v -> 8v+t (a base-8 sequence of updaters), bounded
+inline long upd(long v, int t) { return (v < 0 || v >= 32768) ? t : 8 * v + t; }
+
 struct CellStats {
     int nextId = 0;
     int live = 0;
     int throwsLeft = 0;       // remaining injected throws in this execution (param maxthrows)
     int copyThrowsLeft = 0;   // remaining injected throws in copy / assignment (param copythrows)
     bool quietCtor = true;    // construction / destruction by the driver thread is silent
+    bool loudLife = false;    // value construction / destruction are steps with ctor / dtor events (C04, C16)
 };
 inline CellStats g_cell;
 
@@ -46,7 +50,7 @@ class Cell {
     explicit Cell(long v = 0): a(v), b(v), id(++g_cell.nextId)
     {
         g_cell.live++;
-        if (loud()) step_ev("ctor", "cell", id, v);
+        if (loud() && g_cell.loudLife) step_ev("ctor", "cell", id, v);
     }
     Cell(const Cell& o): id(++g_cell.nextId)
     {
@@ -69,7 +73,7 @@ class Cell {
     }
     ~Cell()
     {
-        if (loud()) step_ev("dtor", "cell", id, a, alive ? 0 : 1);
+        if (loud() && g_cell.loudLife) step_ev("dtor", "cell", id, a, alive ? 0 : 1);
         alive = false;
         g_cell.live--;
     }
